@@ -24,7 +24,7 @@ CHECKS = {
  "C08": ("stateless deviation-bounded exhaustive exploration of real Apps under both visibility policies; wire scan, visibility-query oracle and twin-execution differential",
          "All sequences of visibility calls, lifecycle operations and ticks within the bound are executed; every message is scanned for payloads of entities hidden from its recipient, is_visible is compared with the last call, and a second client is compared with a twin execution.", "§5 C08"),
  "C09": ("stateless deviation-bounded exhaustive exploration of real Apps with disconnect / server-stop injection at every round (crash-point enumeration)",
-         "A client disconnect or server stop is injected at every round of every history within the bound, with traffic held in flight or buffered by earlier deviations; after reconnect the per-frame confirmed-tick oracle, the session-aware recipient oracle and convergence must hold and no panic may occur; the restart cell also under both resolutions of every open system-order pair.", "§5 C09"),
+         "A client disconnect or server stop is injected at every round of every history within the bound, with traffic held in flight or buffered by earlier deviations; after reconnect the per-frame confirmed-tick oracle, the session-aware recipient oracle and convergence must hold and no panic may occur; the restart cell also under both resolutions of every open system-order pair. Plus reconnects of real Apps over loopback TCP with messages waiting in the client's link conditioner.", "§5 C09"),
  "C13": ("exhaustive enumeration of operation sequences on one real App (all configurations, status-change points, emission points, event-rotation regimes), plus all emit/close histories of two real Apps with the example backend over loopback TCP",
          "Every sequence of <= r operations (server start/stop, client status changes, emissions in every mode) is executed on a real App in the full and the dedicated build; per event the number of local observations and wire sends must match the configuration, never twice. With the real transport: every history of <= 3/4 frames over emit / close / both on either side, exactly one path per event.", "§5 C13"),
  "C16": ("stateless deviation-bounded exhaustive exploration of real Apps with pre-spawn mapping operations; per-frame adoption oracle",
